@@ -25,7 +25,7 @@ Qed.
 Lemma len_nonneg (l : list Z) : (0 <= inZ (Z.of_nat (length l)))%Q.
 Proof. unfold inZ. rewrite <- (Zle_Qle 0). lia. Qed.
 
-Lemma den_pos c l : consts_wf c = true -> (0 < inZ (Z.of_nat (length l)) + c_avg_cov_eps c)%Q.
+Lemma den_pos c (l : list Z) : consts_wf c = true -> (0 < inZ (Z.of_nat (length l)) + c_avg_cov_eps c)%Q.
 Proof. intros W. pose proof (wf_eps c W). pose proof (len_nonneg l). lra. Qed.
 
 (* the comparison the code makes is the cross-multiplied one *)
@@ -140,7 +140,7 @@ Qed.
 Lemma qsum_ge_len (l : list Q) : (forall x, In x l -> (1 <= x)%Q) -> (inZ (Z.of_nat (length l)) <= qsum l)%Q.
 Proof.
   induction l as [|x l IH]; intros H.
-  - cbn. unfold inZ. cbn. lra.
+  - cbn [qsum length Z.of_nat]. unfold inZ. change (inject_Z 0) with 0%Q. lra.
   - cbn [qsum length]. rewrite Nat2Z.inj_succ. unfold Z.succ, inZ. rewrite inject_Z_plus.
     assert (1 <= x)%Q by (apply H; left; reflexivity).
     assert (inZ (Z.of_nat (length l)) <= qsum l)%Q by (apply IH; intros y Hy; apply H; right; exact Hy).
